@@ -223,6 +223,9 @@ func genRoots(fam []string, p int64) generator {
 		cnt := 60
 		if thorough {
 			cnt = 600
+			if p == 3 {
+				cnt = 200 // the model's cube-root extraction on 100+ digit radicands costs about a second per case
+			}
 		}
 		for i := 0; i < cnt; i++ {
 			var s *big.Int
@@ -274,6 +277,9 @@ func genRoots(fam []string, p int64) generator {
 		cnt = 150
 		if thorough {
 			cnt = 2500
+			if p == 3 {
+				cnt = 900
+			}
 		}
 		for i := 0; i < cnt; i++ {
 			num := r.BigDigits(r.Range(1, 60))
